@@ -91,11 +91,29 @@ func (sm *NestedSyncMap) lookup(key string) (map[string]any, string) {
 	return current, elements[len(elements)-1]
 }
 
+// copyTree duplicates every map[string]any reachable through map[string]any
+// values. Those are the only maps Set and Delete ever write to, so a copy made
+// while the mutex is held shares no memory with later writes.
+func copyTree(data map[string]any) map[string]any {
+	out := make(map[string]any, len(data))
+	for k, v := range data {
+		if nested, ok := v.(map[string]any); ok {
+			out[k] = copyTree(nested)
+		} else {
+			out[k] = v
+		}
+	}
+	return out
+}
+
+// Data returns a snapshot of the whole tree. The caller owns the result: it
+// is not changed by later Set/Delete calls and can be serialized without
+// holding the lock.
 func (sm *NestedSyncMap) Data() map[string]any {
 	sm.mutex.Lock()
 	defer sm.mutex.Unlock()
 
-	return sm.data
+	return copyTree(sm.data)
 }
 
 func (sm *NestedSyncMap) Get(key string) any {
